@@ -654,6 +654,11 @@ func (uconn *UConn) MarshalClientHelloNoECH() error {
 		extensionsLen += paddingExt.Len()
 	}
 
+	if extensionsLen > 0xffff {
+		// the extensions block is prefixed by a 16-bit length
+		return errors.New("utls: extensions of the ClientHello are too large to encode: " + strconv.Itoa(extensionsLen) + " bytes")
+	}
+
 	helloLen := headerLength
 	if len(uconn.Extensions) > 0 {
 		helloLen += 2 + extensionsLen // 2 bytes for extensions' length
